@@ -759,6 +759,32 @@ def _failed_tests(F, body, du, block):
     return out
 
 
+def _filter_established(F, closure_body):
+    """Quoting tests that every item reaching `closure_body` (a closure of an iterator chain) has already failed
+    because an earlier `.filter(|c| !c.<flag>)` of the same chain let it through."""
+    out = set()
+    if '::{closure' not in closure_body.fn:
+        return out
+    parent = F.bodies.get(closure_body.root)
+    if parent is None:
+        return out
+    pdu = Q.DefUse(parent)
+    for blk, t in Q.find_calls(parent, [re.compile(r'Iterator::filter$')]):
+        clo = pdu.origin(t['a'][1]) if len(t['a']) > 1 else {'k': '?'}
+        fb = F.bodies.get(clo['rv'].get('def')) if clo['k'] == 'agg' else None
+        if fb is None:
+            continue
+        fdu = Q.DefUse(fb)
+        for b2, j2, s2 in fb.stmts():
+            if s2['k'] == 'assign' and s2['lhs']['l'] == 0 and s2['rv']['k'] == 'unop' and s2['rv']['op'] == 'Not':
+                org = fdu.origin(s2['rv']['o'])
+                if org['k'] == 'place':
+                    f = _field_of(org['pl'], ATTRCHAR, ('is_quoting', 'is_quoted'))
+                    if f:
+                        out.add(f)
+    return out
+
+
 @RS.rule('C04.R4', 'K-CALLERS+K-GUARD', 'patterns are compiled only by case/trim/glob, from streams that make Normal only for unquoted characters')
 def r4(cx):
     F = cx.F
@@ -809,6 +835,9 @@ def r4(cx):
             n_norm += 1
             du = du or Q.DefUse(body)
             need = PRODUCERS.get(body.fn)
+            if need is None:
+                # any closure of a reviewed producer function (the chain may be written filter + map instead of filter_map)
+                need = {TO_PATTERN_CHARS: PRODUCERS[TO_PATTERN_CHARS + '::{closure#0}']}.get(body.root)
             cx.fn(body.fn)
             if need is None:
                 cx.site('%s: PatternChar::Normal at %s' % (body.fn, body.loc(s)))
@@ -816,6 +845,9 @@ def r4(cx):
                              loc=body.loc(s))
                 continue
             failed = _failed_tests(F, body, du, b)
+            from_filter = _filter_established(F, body)
+            for k_ in from_filter:
+                failed.setdefault(k_, 'filter')
             cx.site('%s: PatternChar::Normal at %s only after %s failed' % (body.fn.split('::')[-2] + '::' + body.fn.split('::')[-1], body.loc(s), sorted(failed)))
             for m in sorted(need - set(failed)):
                 cx.violation(body.fn, 'normal-without:%s' % m, 'a character becomes PatternChar::Normal (syntactically active) although '
@@ -824,8 +856,8 @@ def r4(cx):
             # the flags tested and the value used belong to the same AttrChar
             vorg = du.origin(s['rv']['ops'][0])
             vl = vorg['pl']['l'] if vorg['k'] == 'place' and _field_of(vorg['pl'], ATTRCHAR, ('value',)) else None
-            flags = {failed.get('is_quoting'), failed.get('is_quoted')} - {None}
-            if vl is None or flags != {vl}:
+            flags = {failed.get('is_quoting'), failed.get('is_quoted')} - {None, 'filter'}
+            if vl is None or (flags and flags != {vl}):
                 cx.violation(body.fn, 'normal-other-char', 'the character made Normal is not the value of the AttrChar whose flags were tested',
                              loc=body.loc(s))
         for b, t in body.calls():
@@ -933,7 +965,7 @@ def _variant_conds(F, body, du, block):
 
 def _bool_field_conds(F, body, du, block, adt):
     out = {}
-    for org, lab, e in Q.dominating_conditions(F, body, du, block):
+    for org, lab, e in Q.implied_conditions(F, body, du, block):
         if org['k'] == 'place' and lab[0] == 'bool':
             for x in org['pl'].get('p') or []:
                 if isinstance(x, dict) and x.get('adt') == adt and 'f' in x:
